@@ -18,6 +18,9 @@ pub enum Choice {
     ClientAnswer { id: String, answer: usize },
     /// the harness performs the next on-disk modification of the scenario
     Disk { index: usize },
+    /// the server's initialisation completes (only in scenarios that keep the initialisation
+    /// window open: messages arriving before it are queued by the real server loop)
+    InitDone,
 }
 
 impl Choice {
@@ -35,6 +38,7 @@ impl Choice {
             Choice::Timer { deadline_ms } => format!("timer@{deadline_ms}"),
             Choice::ClientAnswer { id, answer } => format!("client:{id}#{answer}"),
             Choice::Disk { index } => format!("disk#{index}"),
+            Choice::InitDone => "init-done".to_string(),
         }
     }
     fn actor(&self) -> Option<usize> {
@@ -52,6 +56,9 @@ pub struct Point {
     /// index 0 continues the previously running task (if it is still enabled)
     pub running_still_enabled: bool,
     pub chosen: usize,
+    /// index of the first environment event (timer, client answer, disk change, end of
+    /// initialisation) in the enabled list; task gates come before it
+    pub env_from: usize,
     pub label: String,
     /// happens-before hash of the state in which the decision was taken
     pub key: u64,
@@ -252,12 +259,15 @@ impl<'a> Controller<'a> {
         } else {
             out = gates;
         }
+        // the end of initialisation is ordered before the timer: the server polls for it with a
+        // 50 ms timeout, so "timer first" forever would never end (it is explored as a deviation)
+        out.extend(env.iter().filter(|c| matches!(c, Choice::InitDone)).cloned());
         let mut timers = verif::timers();
         timers.dedup_by_key(|t| t.0);
         if let Some((d, _)) = timers.first() {
             out.push(Choice::Timer { deadline_ms: *d });
         }
-        out.extend(env.iter().cloned());
+        out.extend(env.iter().filter(|c| !matches!(c, Choice::InitDone)).cloned());
         (out, running)
     }
 
@@ -282,11 +292,13 @@ impl<'a> Controller<'a> {
             0
         };
         let ch = enabled[chosen].clone();
-        self.trace.points.push(Point { n_enabled: enabled.len(), running_still_enabled: running, chosen, label: ch.label(names), key });
+        let env_from = enabled.iter().position(|c| c.actor().is_none()).unwrap_or(enabled.len());
+        self.trace.points.push(Point { n_enabled: enabled.len(), running_still_enabled: running, chosen, env_from, label: ch.label(names), key });
         self.last_actor = ch.actor();
         match &ch {
             Choice::ClientAnswer { id, answer } => self.hb.env(mix(vcore::fnv(id.as_bytes()), *answer as u64)),
             Choice::Disk { index } => self.hb.env(mix(0x6469736b, *index as u64)),
+            Choice::InitDone => self.hb.env(0x696e6974),
             _ => {}
         }
         Some(ch)
@@ -309,7 +321,8 @@ pub struct ExploreStats {
     pub pruned: u64,
 }
 
-/// Enumerates every schedule with at most `bound` preemptions, up to happens-before
+/// Enumerates every schedule with at most `bound` deviations (preemptions of a task that could
+/// continue, or environment events landing before something that was ready), up to happens-before
 /// equivalence of the states reached: a decision point whose state key was already expanded
 /// with no more preemptions spent is not expanded again (its continuation on the default
 /// schedule is identical, hence so are all alternatives below it). `run(prefix)` executes one
@@ -395,7 +408,10 @@ pub fn explore<R: Send>(
                                     }
                                 }
                                 for alt in 1..p.n_enabled {
-                                    let c = cost + if p.running_still_enabled { 1 } else { 0 };
+                                    // a deviation = switching away from a task that could continue, or
+                                    // letting an environment event (timer, client answer, disk change,
+                                    // end of initialisation) land before something that was ready
+                                    let c = cost + if p.running_still_enabled || alt >= p.env_from { 1 } else { 0 };
                                     if c <= bound {
                                         let mut np = choices[..i].to_vec();
                                         np.push(alt);
@@ -403,7 +419,7 @@ pub fn explore<R: Send>(
                                     }
                                 }
                             }
-                            if p.running_still_enabled && p.chosen != 0 {
+                            if p.chosen != 0 && (p.running_still_enabled || p.chosen >= p.env_from) {
                                 cost += 1;
                             }
                         }
